@@ -1,5 +1,5 @@
 // C10: black-box discovery of field ownership in the real DataField/DataFieldSet objects.
-// Input : case file written by TLC (spec/C10Cases.tla): one field sequence per line with P's ownership map.
+// Input : case file written by TLC (spec/C10Cases.tla): one field sequence per line with P's admissible ownership map(s).
 // Output: one ndjson record per case with what the real code did (lengths, bits changed by encoding one field,
 //         bits each field's decoding depends on, composition/alone/round-trip mismatch counts). TLC judges them.
 // No ebusd code lives here; the field sets are built from CSV text through MappedFileReader -> DataField::create.
@@ -113,15 +113,18 @@ static string pairs(const vector<int>& masks) {
 static void runCase(int id, const J& c, vf::Out& out, Dbg& dbg, uint64_t seed) {
   size_t nf = c["k"].a.size();
   vector<Fld> F(nf);
-  int len[2] = { (int)c["len"].a[0].n, (int)c["len"].a[1].n };   // index 0 = master, 1 = slave
-  int fix[2] = { (int)c["fix"].a[0].n, (int)c["fix"].a[1].n };
+  // P's admissible ownership maps (more than one only in the unspecified case); which of them the code realises is
+  // decided below from the number of bytes the real write produces - everything else is then checked against that map
+  const vector<J>& alts = c["alts"].a;
+  size_t alt = 0;
+  int len[2] = {0, 0}, fix[2] = {0, 0};   // index 0 = master, 1 = slave
   string def; char nb[64];
   int jidx = 0;
   for (size_t i = 0; i < nf; i++) {
     Fld& f = F[i];
     f.kind = (int)c["k"].a[i].n; f.type = c["t"].a[i].s; f.master = c["p"].a[i].s == "m";
     f.ign = f.type.compare(0, 3, "IGN") == 0;
-    f.b = (int)c["own"].a[i].a[0].n; f.n = (int)c["own"].a[i].a[1].n; f.mask = (int)c["own"].a[i].a[2].n;
+    f.b = 0; f.n = (int)alts[0]["own"].a[i].a[1].n; f.mask = (int)alts[0]["own"].a[i].a[2].n;   // n, mask: same in all maps
     if (!f.ign) { snprintf(nb, sizeof nb, "f%zu", i + 1); f.name = nb; snprintf(nb, sizeof nb, "u%zu", i + 1); f.unit = nb; snprintf(nb, sizeof nb, "c%zu", i + 1); f.comment = nb; }
     f.jsonIndex = jidx; if (!f.ign) jidx++;
     string one = f.name + "," + (f.master ? "m" : "s") + "," + f.type + ",," + f.unit + "," + f.comment;
@@ -136,17 +139,12 @@ static void runCase(int id, const J& c, vf::Out& out, Dbg& dbg, uint64_t seed) {
   rec += "],\"p\":[";
   for (size_t i = 0; i < nf; i++) { rec += i ? "," : ""; rec += F[i].master ? "\"m\"" : "\"s\""; }
   snprintf(b, sizeof b, "],\"cr\":%d", set ? (int)cr : (cr == RESULT_OK ? -1 : (int)cr)); rec += b;
+  string ownStr = "[";   // filled once the map is chosen
   bool aloneOk = true; for (auto& f : F) if (!f.alone) aloneOk = false;
   if (!set || !aloneOk) {
-    rec += ",\"glf\":[],\"glx\":[],\"g31\":[],\"wr\":[],\"wl\":[],\"wn\":[],\"enc\":[],\"sens\":[],\"nv\":[],\"cm\":0,\"cmf\":0,\"am\":0,\"rt\":0,\"be\":0,\"xe\":0,\"le\":0}\n";
+    rec += ",\"own\":[],\"na\":0,\"glf\":[],\"glx\":[],\"g31\":[],\"wr\":[],\"wl\":[],\"wn\":[],\"enc\":[],\"sens\":[],\"nv\":[],\"cm\":0,\"cmf\":0,\"am\":0,\"rt\":0,\"be\":0,\"xe\":0,\"le\":0}\n";
     out.raw(rec); for (auto& f : F) delete f.alone; delete set; return;
   }
-  // --- the three length notions -------------------------------------------------------------
-  const PartType PT[2] = { pt_masterData, pt_slaveData };
-  snprintf(b, sizeof b, ",\"glf\":[%zu,%zu],\"glx\":[%zu,%zu],\"g31\":[%zu,%zu]",
-    set->getLength(PT[0], fix[0]), set->getLength(PT[1], fix[1]), set->getLength(PT[0], len[0]), set->getLength(PT[1], len[1]),
-    set->getLength(PT[0], MAX_LEN), set->getLength(PT[1], MAX_LEN));
-  rec += b;
   // --- values: decode candidate byte patterns with the stand-alone field, keep those that re-encode identically -----
   for (auto& f : F) {
     if (f.ign) continue;
@@ -185,6 +183,20 @@ static void runCase(int id, const J& c, vf::Out& out, Dbg& dbg, uint64_t seed) {
       useds[q] = used; res[q] = w.data();
     }
   };
+  {
+    vector<int> pick(nf, 0); vector<uint8_t> B0[2]; int rc0[2]; size_t u0[2];
+    encode(pick, B0, rc0, u0);
+    for (size_t v = 0; v < alts.size(); v++)
+      if ((size_t)alts[v]["len"].a[0].n == u0[0] && (size_t)alts[v]["len"].a[1].n == u0[1]) { alt = v; break; }
+    for (int q = 0; q < 2; q++) { len[q] = (int)alts[alt]["len"].a[q].n; fix[q] = (int)alts[alt]["fix"].a[q].n; }
+    for (size_t i = 0; i < nf; i++) F[i].b = (int)alts[alt]["own"].a[i].a[0].n;
+  }
+  // --- the three length notions -------------------------------------------------------------
+  const PartType PT[2] = { pt_masterData, pt_slaveData };
+  snprintf(b, sizeof b, ",\"glf\":[%zu,%zu],\"glx\":[%zu,%zu],\"g31\":[%zu,%zu]",
+    set->getLength(PT[0], fix[0]), set->getLength(PT[1], fix[1]), set->getLength(PT[0], len[0]), set->getLength(PT[1], len[1]),
+    set->getLength(PT[0], MAX_LEN), set->getLength(PT[1], MAX_LEN));
+  rec += b;
   for (int base = 0; base < 2; base++) {
     vector<int> pick(nf, base);
     vector<uint8_t> B0[2]; int rc0[2]; size_t u0[2];
@@ -307,6 +319,9 @@ static void runCase(int id, const J& c, vf::Out& out, Dbg& dbg, uint64_t seed) {
       }
     }
   }
+  for (size_t i = 0; i < nf; i++) { snprintf(b, sizeof b, i ? ",[%d,%d,%d]" : "[%d,%d,%d]", F[i].b, F[i].n, F[i].mask); ownStr += b; }
+  rec += ",\"own\":" + ownStr + "]";
+  snprintf(b, sizeof b, ",\"na\":%zu", alts.size()); rec += b;
   snprintf(b, sizeof b, ",\"wr\":[%d,%d],\"wl\":[%zu,%zu],\"wn\":[%zu,%zu],\"enc\":[", wr[0], wr[1], wl[0], wl[1], wn[0], wn[1]); rec += b;
   for (size_t i = 0; i < nf; i++) { rec += i ? "," : ""; rec += pairs(enc[i]); }
   rec += "],\"sens\":[";
